@@ -282,7 +282,9 @@ func hasNonInteger(v *refjson.Value) bool {
 	return false
 }
 
-var keyMenu = []string{"ban", "kick", "invite", "redact", "events_default", "state_default", "users_default", "events/m.x", "events/m.room.name", "notifications/room", "notifications/x", "users/" + S, "users/" + O, "users/" + P}
+var keyMenu = []string{"ban", "kick", "invite", "redact", "events_default", "state_default", "users_default", "events/m.x", "events/m.room.name", "notifications/room", "notifications/x", "users/" + S, "users/" + O, "users/" + P,
+	// event types spelt like an action threshold: entries of `events`, unrelated to the threshold of that name
+	"events/kick", "events/state_default"}
 
 func main() { harness.Main("C08", "model_checking", run) }
 
